@@ -1,0 +1,30 @@
+//go:build verif
+
+// Contracts for the generated protobuf getters used by the streaming methods of package main (property C19).
+// Comment-only; read by /verif/vcgo, build tag verif. The getters are verified against their generated bodies (no `trusted`).
+// (vcgo assumes a pointer receiver non-nil inside the body and asks the call site to prove it, so the x == nil branch of
+// the generated code is not exercised; the contracts state the x != nil behaviour.)
+package old_faithful_grpc
+
+//@ func (*StreamTransactionsFilter) GetVote
+//@   ensures result == (x.Vote != nil && *x.Vote)
+
+//@ func (*StreamTransactionsFilter) GetFailed
+//@   ensures result == (x.Failed != nil && *x.Failed)
+
+//@ func (*Transaction) GetTransaction
+//@   ensures result == x.Transaction
+
+//@ func (*Transaction) GetMeta
+//@   ensures result == x.Meta
+
+//@ func (*Transaction) GetIndex
+//@   ensures x.Index != nil ==> result == *x.Index
+//@   ensures x.Index == nil ==> result == 0
+
+//@ func (*TransactionResponse) GetIndex
+//@   ensures x.Index != nil ==> result == *x.Index
+//@   ensures x.Index == nil ==> result == 0
+
+//@ func (*TransactionResponse) GetSlot
+//@   ensures result == x.Slot
